@@ -9,6 +9,7 @@ import ImmuModel.Merkle.AHTree
 import ImmuModel.Merkle.HTree
 import ImmuModel.Merkle.Proofs.InclSound
 import ImmuModel.Merkle.Proofs.Roots
+import ImmuModel.Merkle.Proofs.AhtComplete
 import ImmuModel.Merkle.Proofs.ConsSound
 import ImmuModel.Merkle.Proofs.HTreeProofs
 import ImmuModel.Merkle.MthLemmas
@@ -108,6 +109,28 @@ theorem consistency_sound (mh : MH D) (p : List D) (i j : Nat) (r1 : D) (ys : Li
 theorem consistency_same_size (mh : MH D) (p : List D) (i : Nat) (r1 r2 : D)
     (hv : verifyConsistency mh p i i r1 r2 = true) : r1 = r2 :=
   verifyConsistency_sound_eq mh p i r1 r2 hv
+
+/-- **Inclusion completeness.** For every history of appends and every `1 ≤ i ≤ j ≤ n` the
+prover returns a proof that the (repaired, length-checking) verifier accepts. -/
+theorem inclusion_complete (mh : MH D) (ds : List Bytes) (t : AHT D) (i j : Nat)
+    (ht : AHT.appendAll mh AHT.empty ds = some t) (h1 : 1 ≤ i) (h2 : i ≤ j) (h3 : j ≤ ds.length) :
+    ∃ p, AHT.inclusionProofAPI t i j = .ok p ∧
+      verifyInclusion mh p i j (mh.leafH (ds[i-1]'(by omega))) (mth mh ((ds.take j).map mh.leafH)) = true :=
+  aht_inclusion_complete mh ds t i j ht h1 h2 h3
+
+/-- **Last-inclusion completeness.** -/
+theorem lastInclusion_complete (mh : MH D) (ds : List Bytes) (t : AHT D) (j : Nat)
+    (ht : AHT.appendAll mh AHT.empty ds = some t) (h1 : 1 ≤ j) (h3 : j ≤ ds.length) :
+    ∃ p, AHT.inclusionProofAPI t j j = .ok p ∧
+      verifyLastInclusion mh p j (mh.leafH (ds[j-1]'(by omega))) (mth mh ((ds.take j).map mh.leafH)) = true :=
+  aht_lastInclusion_complete mh ds t j ht h1 h3
+
+/-- **Consistency completeness.** -/
+theorem consistency_complete (mh : MH D) (ds : List Bytes) (t : AHT D) (i j : Nat)
+    (ht : AHT.appendAll mh AHT.empty ds = some t) (h1 : 1 ≤ i) (h2 : i ≤ j) (h3 : j ≤ ds.length) :
+    ∃ p, AHT.consistencyProofAPI t i j = .ok p ∧
+      verifyConsistency mh p i j (mth mh ((ds.take i).map mh.leafH)) (mth mh ((ds.take j).map mh.leafH)) = true :=
+  aht_consistency_complete mh ds t i j ht h1 h2 h3
 
 /-- **Entry-tree inclusion soundness (membership).** An accepted entry proof against the true
 entry-tree root proves that the digest is one of the transaction's entry digests, whatever
